@@ -418,6 +418,8 @@ def verify_contract(index, table, contracts, c, axioms, timeout_ms=10000, max_pa
     def tag_props(name, props):
         prop_of.setdefault(name, set()).update(props or c.props)
 
+    matched_specs = set()
+
     def run_one(ctx):
         st = State(ctx, table)
         it = Interp(index, table, contracts, ctx, st, top=c)
@@ -482,6 +484,7 @@ def verify_contract(index, table, contracts, c, axioms, timeout_ms=10000, max_pa
             res.inlined |= it.inlined
             res.used_contracts |= it.used_contracts
             res.used_trusted |= it.used_trusted
+            matched_specs.update(it.matched_loop_specs)
         res.exits[exit_kind] = res.exits.get(exit_kind, 0) + 1
         if exit_kind == "prefix":
             for fn in c.exit_checks:
@@ -544,6 +547,12 @@ def verify_contract(index, table, contracts, c, axioms, timeout_ms=10000, max_pa
         # reached" - is the exception: it can only ever be discharged by the path being impossible)
         o["vacuous"] = (not o["failed"]) and o.get("live", 1) == 0 and not o.get("const_false", False)
         res.obligations[name] = o
+    unmatched = [k for k in c.loop_specs if k not in matched_specs]
+    if res.status == "ok" and unmatched:
+        # the loop a loop contract talks about is not in the code (any more): what it guaranteed is no longer checked
+        res.status = "undecided"
+        res.reason = "loop contract(s) %s match no loop of the function: the contract has to be revisited" % (
+            ", ".join(str(k) for k in unmatched))
     if res.status == "ok" and sum(res.exits.values()) == 0:
         res.vacuous = True
         res.status = "undecided"
